@@ -132,4 +132,59 @@ def stringToBytes (s : Str) : List Nat := s.map (· % 256)
 def indexString (s : Str) (i : Int) : Option Nat :=
   if i < 0 || i ≥ s.length then none else charCodeAt s i.toNat
 
+/-! ### `string(x)` for an integer operand (compiler/expressions.go `translateConversion`, branch `isString(t)`,
+    `case *types.Basic`) -/
+
+/-- the integer kinds a `string(x)` operand can have (after `Underlying()`); `int`, `uint`, `uintptr` are 32 bits wide -/
+inductive IntKind | i8 | i16 | i32 | i64 | u8 | u16 | u32 | u64 | int | uint | uintptr
+deriving DecidableEq, Repr
+
+/-- typesutil `is64Bit` -/
+def IntKind.is64 : IntKind → Bool
+  | .i64 | .u64 => true
+  | _ => false
+
+/-- the values a variable of the kind can hold -/
+def IntKind.holds (k : IntKind) (v : Int) : Bool :=
+  match k with
+  | .i8 => -128 ≤ v && v ≤ 127
+  | .i16 => -32768 ≤ v && v ≤ 32767
+  | .i32 | .int => -2147483648 ≤ v && v ≤ 2147483647
+  | .i64 => -9223372036854775808 ≤ v && v ≤ 9223372036854775807
+  | .u8 => 0 ≤ v && v ≤ 255
+  | .u16 => 0 ≤ v && v ≤ 65535
+  | .u32 | .uint | .uintptr => 0 ≤ v && v ≤ 4294967295
+  | .u64 => 0 ≤ v && v ≤ 18446744073709551615
+
+/-- a 64-bit value is the object `{$high, $low}`: `$low` = the unsigned low word, `$high` = the rest
+    (signed for int64, unsigned for uint64) — numeric.js `$Int64` / `$Uint64` constructors -/
+def high64 (v : Int) : Int := v / 4294967296
+def low64 (v : Int) : Int := v % 4294967296
+
+/-- numeric.js `$flatten64`: `x.$high * 4294967296 + x.$low`. Exact on `Int`; in JS the sum is a double and is
+    rounded once the magnitude passes 2^53 — `flatten64_margin` (Props.C14) shows that whenever `$high ≠ 0` the exact
+    sum is ≤ -1 or ≥ 2^32, both representable, so the (monotone) rounding cannot move it into the rune range. -/
+def flatten64 (hi lo : Int) : Int := hi * 4294967296 + lo
+
+/-- the JS expression handed to `$encodeRune`: `$flatten64(x)` for 64-bit operands, `x` itself otherwise
+    (expressions.go: `if is64Bit(et) { value = "$flatten64(%s)" }; if isNumeric(et) { return "$encodeRune(%s)" }`) -/
+def convArg (k : IntKind) (v : Int) : Int :=
+  if k.is64 then flatten64 (high64 v) (low64 v) else v
+
+/-- `string(x)`, x of integer kind `k` holding `v` -/
+def intToString (k : IntKind) (v : Int) : Str := encodeRune (convArg k v)
+
+/-- the code before the repair passed only `x.$low` -/
+def convArgOld (k : IntKind) (v : Int) : Int := if k.is64 then low64 v else v
+
+/-- the text emitted for `string(x)` (with the operand's translation written `x`) -/
+def convShape (k : IntKind) : String :=
+  if k.is64 then "$encodeRune($flatten64(x))" else "$encodeRune(x)"
+
+def IntKind.parse : String → Option IntKind
+  | "int8" => some .i8 | "int16" => some .i16 | "int32" => some .i32 | "int64" => some .i64
+  | "uint8" => some .u8 | "uint16" => some .u16 | "uint32" => some .u32 | "uint64" => some .u64
+  | "int" => some .int | "uint" => some .uint | "uintptr" => some .uintptr
+  | _ => none
+
 end GV.Utf8
